@@ -2,6 +2,7 @@ package spec
 
 import (
 	"fmt"
+	"slices"
 	"strings"
 	"sync"
 
@@ -167,11 +168,25 @@ func (t *SymbolTable) Verify() error {
 	return errs.ErrorOrNil()
 }
 
+// orderedTerminals returns the terminals of the symbol table in ascending order.
+// The hash table is traversed in a random order; diagnostics must not depend on it.
+func (t *SymbolTable) orderedTerminals() []grammar.Terminal {
+	all := make([]grammar.Terminal, 0, t.terminals.table.Size())
+	for a := range t.terminals.table.All() {
+		all = append(all, a)
+	}
+
+	sort.Quick(all, grammar.CmpTerminal)
+
+	return all
+}
+
 // ensureSingleDefs ensures every terminal has one and only one definition.
 func (t *SymbolTable) ensureSingleDefs() error {
 	var errs error
 
-	for a, e := range t.terminals.table.All() {
+	for _, a := range t.orderedTerminals() {
+		e, _ := t.terminals.table.Get(a)
 		if count := len(e.definitions); count == 0 {
 			errs = errors.Append(errs, fmt.Errorf("no definition for terminal %s", a))
 		} else if count > 1 {
@@ -193,15 +208,22 @@ func (t *SymbolTable) ensureDistinctDefs() error {
 	var errs error
 
 	reverse := make(map[string][]*TerminalDef)
-	for _, e := range t.terminals.table.All() {
-		if len(e.definitions) == 1 {
+	for _, a := range t.orderedTerminals() {
+		if e, _ := t.terminals.table.Get(a); len(e.definitions) == 1 {
 			def := e.definitions[0]
 			reverse[def.Value] = append(reverse[def.Value], def)
 		}
 	}
 
-	for val, defs := range reverse {
-		if len(defs) > 1 {
+	// The values are visited in ascending order, so that the diagnostics do not depend on the iteration order of the map.
+	vals := make([]string, 0, len(reverse))
+	for val := range reverse {
+		vals = append(vals, val)
+	}
+	slices.Sort(vals)
+
+	for _, val := range vals {
+		if defs := reverse[val]; len(defs) > 1 {
 			poses := generic.Transform(defs, func(def *TerminalDef) string {
 				return fmt.Sprintf("  %s: %s", def.Pos, def.Terminal)
 			})
